@@ -177,6 +177,12 @@ def destructure_subst(fn, types):
             continue
         keep = []
         for s in b["stmts"]:
+            if s.get("k") == "let" and s.get("init") is not None and s.get("els") is None and s["pat"].get("k") in ("ref", "deref") and _pure_place(s["init"]):
+                p_ = s["pat"]
+                while p_ is not None and p_.get("k") in ("ref", "deref"):
+                    p_ = p_["p"]
+                if p_ is not None and p_.get("k") == "tuple":
+                    s["pat"] = p_          # `let &(a, b) = r;` takes the tuple behind the reference apart: `let (a, b) = *r;`
             ok = (s.get("k") == "let" and s.get("init") is not None and s.get("els") is None and s["pat"].get("k") == "tuple"
                   and all(q.get("k") in ("bind", "wild") and not q.get("sub") and "Mut)" not in str(q.get("mode")) and not str(q.get("mode", "")).startswith("BindingMode(Ref")
                           for q in s["pat"]["ps"]) and _pure_place(s["init"]))
@@ -2145,7 +2151,7 @@ def match_guards(fn):
             x = single(x)
             if x.get("k") != "match":
                 return x
-        if x.get("k") == "match" and any(a.get("guard") is not None for a in x["arms"]) and _pure_place(x["scrut"]):
+        if x.get("k") == "match" and any(a.get("guard") is not None for a in x["arms"]) and (_pure_place(x["scrut"]) or _pure_access(x["scrut"])):
             g = [i for i, a in enumerate(x["arms"]) if a.get("guard") is not None]
             if size({"k": "x", "arms": x["arms"][g[0] + 1:]}) <= 600:
                 m = lower(x["scrut"], x["arms"], x.get("line"))
@@ -2860,7 +2866,33 @@ def tuple_folds(fn):
                                 res.append({"k": "assign", "l": {"k": "local", "name": q["name"], "hid": q["hid"], "t": q.get("t"), "line": line}, "r": r, "line": r.get("line", line)})
                             return res
                         ok = True
-                        fin = assigns(tail)
+
+                        def leaves(e):
+                            """the value expression `e` of the closure with every leaf tuple turned into its assignments -> statement list, or None"""
+                            e0 = _unblk(e)
+                            if e0 is None:
+                                return None
+                            if e0.get("k") == "tup":
+                                return assigns(e0)
+                            if e0.get("k") == "if" and e0.get("el") is not None:
+                                a_, b_ = leaves(e0["th"]), leaves(e0["el"])
+                                if a_ is None or b_ is None:
+                                    return None
+                                mkb = lambda ss: {"k": "blk", "b": {"k": "block", "stmts": ss, "tail": None}, "line": e0.get("line")}
+                                return [{"k": "if", "c": e0["c"], "th": mkb(a_), "el": mkb(b_) if b_ else None, "line": e0.get("line")}]
+                            if e0.get("k") == "match":
+                                arms_ = []
+                                for a in e0["arms"]:
+                                    l_ = leaves(a["body"])
+                                    if l_ is None:
+                                        return None
+                                    arms_.append({**a, "body": {"k": "blk", "b": {"k": "block", "stmts": l_, "tail": None}, "line": e0.get("line")}})
+                                return [{**e0, "arms": arms_}]
+                            if e0.get("k") == "blk" and e0.get("lbl") is None and e0["b"].get("tail") is not None:
+                                l_ = leaves(e0["b"]["tail"])
+                                return None if l_ is None else list(e0["b"]["stmts"]) + l_
+                            return None
+                        fin = leaves(bb.get("tail")) if bb.get("tail") is not None else None
                         if fin is None:
                             ok = False
                         stmts2 = copy.deepcopy(bb["stmts"]) if ok else []
@@ -2985,12 +3017,23 @@ def partial_cmp_match(fn):
         if x.get("k") != "match" or len(x["arms"]) != 2 or any(a.get("guard") is not None for a in x["arms"]):
             return x
         scr = _unblk(x["scrut"])
-        if scr is None or scr.get("k") != "mcall" or scr.get("name") != "partial_cmp" or len(scr["args"]) != 1:
+        if scr is None or scr.get("k") != "mcall" or scr.get("name") not in ("partial_cmp", "cmp") or len(scr["args"]) != 1:
             return x
         p0 = x["arms"][0]["pat"]
         while p0.get("k") in ("ref", "deref"):
             p0 = p0["p"]
         p1 = x["arms"][1]["pat"]
+        if scr["name"] == "cmp":
+            # `match a.cmp(b) { Equal => X, Less | Greater => Y }` (total order: the second arm is everything else)
+            others = {"Greater", "Less", "Equal"}
+            if not (p0.get("k") == "ppath" and p0["path"].rsplit("::", 1)[-1] in OPS):
+                return x
+            others.discard(p0["path"].rsplit("::", 1)[-1])
+            alts = p1["ps"] if p1.get("k") == "or" else [p1]
+            if not (p1.get("k") == "wild" or (all(q.get("k") == "ppath" for q in alts) and {q["path"].rsplit("::", 1)[-1] for q in alts} == others)):
+                return x
+            p0 = {"k": "tstruct", "path": "std::prelude::v1::Some", "ps": [p0]}
+            p1 = {"k": "wild"}
         if not (p0.get("k") == "tstruct" and p0["path"].endswith("::Some") and len(p0["ps"]) == 1 and p0["ps"][0].get("k") == "ppath"
                 and p0["ps"][0]["path"].rsplit("::", 1)[-1] in OPS and p1.get("k") == "wild"):
             return x
@@ -3174,6 +3217,54 @@ def scalar_folds(fn):
             if not done:
                 out.append(st)
         blkn["stmts"] = out
+    # `for P in ITER.filter(|Q| c) { body }`  ->  `for P in ITER { if !c[Q := P] { continue }; body }`   (Q, P patterns of plain bindings in the same positions)
+    for lp in list(_walk(fn.get("body"))):
+        if lp.get("k") != "for":
+            continue
+        it = _unblk(lp["iter"])
+        if it is None or it.get("k") != "mcall" or it.get("name") != "filter" or len(it.get("args") or []) != 1:
+            continue
+        clf = _unblk(it["args"][0])
+        if clf is None or clf.get("k") != "closure" or len(clf.get("params") or []) != 1 or any(y.get("k") == "ret" for y in _walk(clf["body"])):
+            continue
+
+        def binds_in_order(p_):
+            out_ = []
+            while p_ is not None and p_.get("k") in ("ref", "deref"):
+                p_ = p_["p"]
+            if p_ is None:
+                return None
+            if p_.get("k") == "bind" and not p_.get("sub"):
+                return [p_]
+            if p_.get("k") == "wild":
+                return [None]
+            if p_.get("k") == "tuple":
+                for z in p_["ps"]:
+                    r_ = binds_in_order(z)
+                    if r_ is None:
+                        return None
+                    out_ += r_
+                return out_
+            return None
+        qb, pb = binds_in_order(clf["params"][0]), binds_in_order(lp["pat"])
+        if qb is None or pb is None or len(qb) != len(pb) or any(q_ is not None and p_ is None for q_, p_ in zip(qb, pb)):
+            continue
+        ren = {q_["hid"]: p_ for q_, p_ in zip(qb, pb) if q_ is not None}
+        cond = copy.deepcopy(clf["body"])
+        for y in _walk(cond):
+            if y.get("k") == "local" and y.get("hid") in ren:
+                y["name"], y["hid"] = ren[y["hid"]]["name"], ren[y["hid"]]["hid"]
+        # derefs of the renamed (now by-value) bindings disappear with the `&` of the filter's parameter
+        line = lp.get("line")
+        guard = {"k": "if", "c": {"k": "un", "op": "Not", "x": cond, "line": line},
+                 "th": {"k": "blk", "b": {"k": "block", "stmts": [{"k": "continue", "label": lp.get("loop_id"), "line": line}], "tail": None}, "line": line}, "el": None, "line": line, "from_filter": True}
+        bd = lp["body"]
+        if bd.get("k") == "blk" and bd.get("lbl") is None:
+            bd["b"]["stmts"] = [guard] + list(bd["b"]["stmts"])
+        else:
+            lp["body"] = {"k": "blk", "b": {"k": "block", "stmts": [guard, bd], "tail": None}, "line": line}
+        lp["iter"] = it["recv"]
+        n += 1
     # D37
     for lp in list(_walk(fn.get("body"))):
         if lp.get("k") != "for":
@@ -3200,18 +3291,29 @@ def scalar_folds(fn):
                 and all(q.get("k") == "bind" for q in pat["ps"])):
             continue
         a0, a1 = _unblk(pair["xs"][0]), _unblk(pair["xs"][1])
-        if not (a0.get("k") == "local" and a0["hid"] == op["hid"] and a1.get("k") == "local" and a1["hid"] == ip["hid"]):
-            continue
-        if _mentions(i_rng, op["hid"]):
-            pass      # an inner range depending on the outer index is still a nest
         line = lp.get("line")
         _FOLD[0] += 1
-        inner_for = {"k": "for", "pat": pat["ps"][1], "iter": inner["recv"], "body": lp["body"], "loop_id": 9800000 + _FOLD[0], "line": line, "from_product": True}
-        # the inner range may mention the closure's own outer parameter: rename it to the loop's outer binding
-        for y in _walk(inner_for["iter"]):
-            if y.get("k") == "local" and y.get("hid") == op["hid"]:
-                y["hid"], y["name"] = pat["ps"][0]["hid"], pat["ps"][0]["name"]
-        lp["pat"] = pat["ps"][0]
+        if a0.get("k") == "local" and a0["hid"] == op["hid"] and a1.get("k") == "local" and a1["hid"] == ip["hid"]:
+            inner_for = {"k": "for", "pat": pat["ps"][1], "iter": inner["recv"], "body": lp["body"], "loop_id": 9800000 + _FOLD[0], "line": line, "from_product": True}
+            # the inner range may mention the closure's own outer parameter: rename it to the loop's outer binding
+            for y in _walk(inner_for["iter"]):
+                if y.get("k") == "local" and y.get("hid") == op["hid"]:
+                    y["hid"], y["name"] = pat["ps"][0]["hid"], pat["ps"][0]["name"]
+            lp["pat"] = pat["ps"][0]
+        elif _pure_expr(a0) and _pure_expr(a1):
+            # the items are expressions of the two indices: `for k in a..b { for l in c..d { let (p, q) = (e1, e2); body } }`
+            bd = lp["body"]
+            let = {"k": "let", "pat": pat, "init": cl2["body"], "els": None, "line": line}
+            body2 = {"k": "blk", "b": {"k": "block", "stmts": [let] + ([bd] if bd.get("k") != "blk" or bd.get("lbl") is not None else list(bd["b"]["stmts"])),
+                                       "tail": bd["b"].get("tail") if bd.get("k") == "blk" and bd.get("lbl") is None else None}, "line": line}
+            inner_for = {"k": "for", "pat": {**ip, "mode": "BindingMode(No, Not)"}, "iter": inner["recv"], "body": body2, "loop_id": 9800000 + _FOLD[0], "line": line, "from_product": True}
+            lp["pat"] = {**op, "mode": "BindingMode(No, Not)"}
+        else:
+            continue
+        # `continue` of the single loop means "next item": in the nest that is the next iteration of the inner loop (`break` still leaves both)
+        for y in _walk(inner_for["body"]):
+            if y.get("k") == "continue" and y.get("label") in (lp.get("loop_id"), None):
+                y["label"] = inner_for["loop_id"]
         lp["iter"] = it["recv"]
         lp["body"] = {"k": "blk", "b": {"k": "block", "stmts": [inner_for], "tail": None}, "line": line}
         n += 1
@@ -3563,6 +3665,7 @@ def run(facts):
         counts["eta_reduced"] = counts.get("eta_reduced", 0) + eta_reduce(fn)
         counts["partial_cmp_matches"] = counts.get("partial_cmp_matches", 0) + partial_cmp_match(fn)
         counts["reduce_max_by"] = counts.get("reduce_max_by", 0) + reduce_to_max_by(fn)
+        counts["tuple_folds"] = counts.get("tuple_folds", 0) + tuple_folds(fn)
         counts["scalar_folds"] = counts.get("scalar_folds", 0) + scalar_folds(fn)
         counts["compound_assignments"] = counts.get("compound_assignments", 0) + compound_assignments(fn)
         counts["tuple_folds"] = counts.get("tuple_folds", 0) + tuple_folds(fn)
